@@ -224,4 +224,59 @@ theorem afterLoop_fail (e : Env) (line : List Byte) (isLast : Bool) (st : Rx) (r
           exact absurd h.1.symm hr
 
 
+/-! ## between transactions: RSET, MAIL FROM:, RCPT TO: -/
+
+theorem rsetBdatState_eq : Gen.rsetBdatState = Gen.bdatState := rfl
+theorem rsetHeloState_eq : Gen.rsetHeloState = 8 := rfl
+theorem rsetState_eq : Gen.rsetState = 1 := rfl
+theorem mailRow_consts : (Gen.rsetHeloState <<< 1) &&& Gen.mailMask ≠ 0 ∧ Gen.mailState &&& Gen.rcptMask ≠ 0 ∧
+    Gen.rcptState ≠ Gen.bdatState ∧ Gen.rcptState &&& Gen.bdatMask ≠ 0 := by decide
+
+theorem handoffs_snoc_other (log : List Ev) (ev : Ev) (h : ∀ sz d, ev ≠ .qenv sz d) :
+    handoffs (log ++ [ev]) = handoffs log := by
+  rw [handoffs_append]
+  cases ev <;> simp [handoffs] at h ⊢
+
+theorem queueReset_comstate (s : Rx) : (queueReset s).comstate = s.comstate := rfl
+theorem queueReset_handoffs (s : Rx) : handoffs (queueReset s).log = handoffs s.log := by
+  simp [queueReset, Rx.ev, handoffs_append, handoffs]
+theorem freedata_handoffs (s : Rx) : handoffs (freedata s).log = handoffs s.log := by
+  simp [freedata, Rx.ev, handoffs_append, handoffs]
+
+/-- RSET in any state: whatever transfer was open is over, nothing is handed off -/
+theorem smtpRset_spec (st : Rx) :
+    (smtpRset st).comstate ≠ Gen.bdatState ∧ handoffs (smtpRset st).log = handoffs st.log ∧
+      (Gen.rsetHeloState ≤ st.comstate → (smtpRset st).comstate = Gen.rsetHeloState <<< 1 ∧ (smtpRset st).goodrcpt = 0) := by
+  have hrep : ∀ s : Rx, handoffs (s.log ++ [Ev.reply Gen.rsetReply] ++ [Ev.rset]) = handoffs s.log := fun s => by
+    simp [handoffs_append, handoffs]
+  have hle : Gen.rsetHeloState ≤ Gen.rsetBdatState := by decide
+  by_cases h1 : st.comstate = Gen.rsetBdatState
+  · unfold smtpRset
+    simp only [h1, hle, if_true, queueReset_comstate, ge_iff_le, Rx.ev]
+    refine ⟨by decide, ?_, fun _ => ⟨trivial, rfl⟩⟩
+    rw [hrep, freedata_handoffs, queueReset_handoffs]
+  · by_cases h2 : Gen.rsetHeloState ≤ st.comstate
+    · unfold smtpRset
+      simp only [h1, h2, if_true, if_false, ge_iff_le, Rx.ev]
+      refine ⟨by decide, ?_, fun _ => ⟨trivial, rfl⟩⟩
+      rw [hrep, freedata_handoffs]
+    · unfold smtpRset
+      simp only [h1, h2, if_false, ge_iff_le, Rx.ev]
+      refine ⟨by decide, ?_, fun h => absurd h (by simp)⟩
+      rw [hrep]
+
+/-- MAIL FROM: and RCPT TO: from the state behind EHLO / RSET / a completed transfer: a transaction
+with one recipient is open, no BDAT transfer is, nothing was handed off -/
+theorem mail_rcpt_spec (s : Rx) (hc : s.comstate = Gen.rsetHeloState <<< 1) :
+    (rcptRow (mailRow s)).comstate ≠ Gen.bdatState ∧ (rcptRow (mailRow s)).goodrcpt ≠ 0 ∧
+      handoffs (rcptRow (mailRow s)).log = handoffs s.log := by
+  have hm : mailRow s = { s.ev .mail with comstate := Gen.mailState } := by
+    unfold mailRow; rw [hc, if_neg mailRow_consts.1]
+  rw [hm]
+  unfold rcptRow
+  simp only [Rx.ev]
+  rw [if_neg mailRow_consts.2.1]
+  refine ⟨mailRow_consts.2.2.1, by simp, ?_⟩
+  simp [handoffs_append, handoffs]
+
 end QsmtpModel.Bdat
